@@ -86,8 +86,16 @@ func diffTargets(a, b *Resp) []string {
 	return out
 }
 
+// bubbleOn is set when the tree contains `go` statements: every world then
+// runs inside a synctest bubble with the goroutine scheduling seam active.
+var bubbleOn bool
+
 func s0() SchedConfig {
-	return SchedConfig{Seed: 1, MapMode: "sorted", ClockMode: "pinned", ClockBase: DefaultClockBase, IdentMode: "pinned"}
+	c := SchedConfig{Seed: 1, MapMode: "sorted", ClockMode: "pinned", ClockBase: DefaultClockBase, IdentMode: "pinned"}
+	if bubbleOn {
+		c.Bubble, c.GoMode = true, "fifo"
+	}
+	return c
 }
 
 type c13Sched struct {
@@ -147,8 +155,20 @@ func c13Schedules(seed uint64, r0 *Resp, thorough bool) []c13Sched {
 		out = append(out, mk("clock-advance", func(c *SchedConfig) { c.ClockMode = "advance" }, 0))
 	}
 	out = append(out, mk("ident-vary", func(c *SchedConfig) { c.IdentMode = "vary" }, 0))
+	if bubbleOn {
+		// goroutine interleavings, everything else pinned
+		out = append(out, mk("go-lifo", func(c *SchedConfig) { c.GoMode = "lifo" }, 0))
+		for i := 0; i < 3; i++ {
+			out = append(out, mk("go-random", func(c *SchedConfig) { c.GoMode = "random" }, i))
+		}
+	}
 	// everything at once
-	out = append(out, mk("all-mix", func(c *SchedConfig) { c.MapMode = "mix"; c.ClockMode = "mix"; c.IdentMode = "vary" }, 0))
+	out = append(out, mk("all-mix", func(c *SchedConfig) {
+		c.MapMode, c.ClockMode, c.IdentMode = "mix", "mix", "vary"
+		if bubbleOn {
+			c.GoMode = "mix"
+		}
+	}, 0))
 	for i := range out {
 		out[i].gmp = i % 3
 	}
